@@ -530,6 +530,122 @@ def coq_read(case, res):
 
 
 # ------------------------------------------------------------------ the other plot functions (oracle only)
+def check_dependence_axes(vp, plt, name, model, semantics, out, own_axes=False):
+    """every axes of plot_dependence_functions, in the order (conditional dimension, conditional parameter):
+    exactly one curve (x, f(x)) of THAT parameter's dependence function over [0, max conditioning value]
+    (or [0, 10] when never fitted), y label = the parameter, and for fitted models exactly one scatter of
+    (conditioning value, that parameter's per-interval estimate), none otherwise"""
+    panels = []
+    for dim in range(model.n_dim):
+        if model.conditional_on[dim] is None:
+            continue
+        dist = model.distributions[dim]
+        for par, dep in dist.conditional_parameters.items():
+            panels.append((dim, par, dep, dist))
+    base = {"function": "plot_dependence_functions"}
+    desc = "%s (%d-D, conditional parameters per dimension %s, %s)" % (
+        name, model.n_dim, [len(model.distributions[d].conditional_parameters) if model.conditional_on[d] is not None else 0 for d in range(model.n_dim)],
+        "fitted" if any(p[3].conditioning_values is not None for p in panels) else "not fitted")
+    axes_in = None
+    if own_axes:
+        axes_in = [plt.subplots()[1] for _ in panels]
+    try:
+        axes = vp.plot_dependence_functions(model, semantics, axes=axes_in)
+    except Exception as e:  # noqa
+        plt.close("all")
+        out.append((dict(base, clause="raises", exception=type(e).__name__), "%s: plot_dependence_functions raises %s: %s" % (desc, type(e).__name__, str(e)[:80])))
+        return len(panels)
+    if len(axes) != len(panels):
+        out.append((dict(base, clause="axes-count"), "%s: %d axes for %d dependence functions" % (desc, len(axes), len(panels))))
+    for i, (dim, par, dep, dist) in enumerate(panels[:len(axes)]):
+        ax = axes[i]
+        tag = "%s: axes[%d] (dimension %d, parameter %r)" % (desc, i, dim, par)
+        cv = dist.conditioning_values
+        lines = ax.get_lines()
+        if len(lines) != 1:
+            out.append((dict(base, clause="curve"), "%s: %d curves drawn, expected exactly one" % (tag, len(lines))))
+        else:
+            xy = np.asarray(lines[0].get_xydata(), dtype=float)
+            xs = np.linspace(0, max(cv)) if cv is not None else np.linspace(0, 10)
+            if not (np.array_equal(xy[:, 0], xs) and np.array_equal(xy[:, 1], np.asarray(dep(xy[:, 0]), dtype=float), equal_nan=True)):
+                out.append((dict(base, clause="curve"), "%s: the curve is not (x, f(x)) of this parameter's dependence function" % tag))
+        if ax.get_ylabel() != par:
+            out.append((dict(base, clause="label"), "%s: y label is %r" % (tag, ax.get_ylabel())))
+        offs = [np.asarray(np.ma.filled(c.get_offsets(), np.nan), dtype=float) for c in ax.collections]
+        if cv is None:
+            if offs:
+                out.append((dict(base, clause="estimates"), "%s: %d scatters drawn for a model that was never fitted" % (tag, len(offs))))
+        else:
+            want = np.c_[np.asarray(cv, dtype=float), np.array([p[par] for p in dist.parameters_per_interval], dtype=float)]
+            if len(offs) != 1 or not _same(offs[0], want):
+                out.append((dict(base, clause="estimates"), "%s: the per-interval estimates drawn are not (conditioning value, estimate of this parameter); %d scatters" % (tag, len(offs))))
+    plt.close("all")
+    return len(panels)
+
+
+def random_nd_model(rng, n_dim, fitted, nprng):
+    """hierarchical model with 2-4 dimensions whose conditional dimensions have DIFFERENT numbers of conditional
+    parameters (2, 1, 2, ...), conditional on random lower dimensions; optionally fitted to a sample of itself"""
+    import virocon as v
+
+    def power3(x, a=0.1, b=1.489, c=0.1901):
+        return a + b * x ** c
+
+    def exp3(x, a=0.04, b=0.1748, c=-0.2243):
+        return a + b * np.exp(c * x)
+
+    def lin(x, a=1.0, b=0.5):
+        return a + b * x
+
+    def lin_b(x, a=1.5, b=0.1):
+        return a + b * x
+
+    b3, b2 = [(0, None), (0, None), (None, None)], [(0, None), (0, None)]
+
+    def build(with_slicers):
+        descs = [{"distribution": v.WeibullDistribution(alpha=2.776, beta=1.471, gamma=0.8888) if not with_slicers else v.WeibullDistribution()}]
+        if with_slicers:
+            descs[0]["intervals"] = v.NumberOfIntervalsSlicer(6, min_n_points=30)
+        return descs
+
+    kinds = []
+    for d in range(1, n_dim):
+        kinds.append(rng.choice(["ln2", "w1", "w2", "ln1", "none"] if d > 1 else ["ln2", "ln2", "w1", "ln1"]))
+    if n_dim >= 3 and len({k for k in kinds if k != "none"}) < 2:
+        kinds[0], kinds[1] = "ln2", "w1"          # make the counts differ
+    cond = [rng.randrange(0, d) for d in range(1, n_dim)]
+
+    def descriptions(with_slicers):
+        descs = build(with_slicers)
+        for d, (k, c) in enumerate(zip(kinds, cond), start=1):
+            if k == "ln2":
+                dd = {"distribution": v.LogNormalDistribution(), "conditional_on": c,
+                      "parameters": {"mu": v.DependenceFunction(power3, b3), "sigma": v.DependenceFunction(exp3, b3)}}
+            elif k == "ln1":
+                dd = {"distribution": v.LogNormalDistribution(f_sigma=0.25), "conditional_on": c,
+                      "parameters": {"mu": v.DependenceFunction(power3, b3)}}
+            elif k == "w1":
+                dd = {"distribution": v.WeibullDistribution(f_beta=2.0, f_gamma=0.0), "conditional_on": c,
+                      "parameters": {"alpha": v.DependenceFunction(lin, b2)}}
+            elif k == "w2":
+                dd = {"distribution": v.WeibullDistribution(f_gamma=0.0), "conditional_on": c,
+                      "parameters": {"alpha": v.DependenceFunction(lin, b2), "beta": v.DependenceFunction(lin_b, b2)}}
+            else:
+                dd = {"distribution": v.WeibullDistribution(alpha=2.0, beta=1.5, gamma=0.1) if not with_slicers else v.WeibullDistribution()}
+            if with_slicers:
+                dd["intervals"] = v.NumberOfIntervalsSlicer(rng.choice([4, 5, 6]), min_n_points=20)
+            descs.append(dd)
+        return descs
+
+    m = v.GlobalHierarchicalModel(descriptions(False))
+    if not fitted:
+        return m, kinds
+    sample = m.draw_sample(6000, random_state=nprng)
+    mf = v.GlobalHierarchicalModel(descriptions(True))
+    mf.fit(sample)
+    return mf, kinds
+
+
 def hist_matches(ax, data):
     """the stepfilled histogram drawn in `ax` is the density histogram (Doane bins) of `data`"""
     if not ax.patches:
@@ -580,19 +696,7 @@ PREDEFINED = ["DNVGL_Hs_Tz", "OMAE2020_Hs_Tz", "OMAE2020_V_Hs", "DNVGL_Hs_U", "W
 def check_fitted(ctx, vp, plt, rng, name, model, data, sem, out):
     n_eval = 0
     for swap_sem in (None, sem):
-        axes = vp.plot_dependence_functions(model, swap_sem)
-        dist = model.distributions[1]
-        cv = np.asarray(dist.conditioning_values, dtype=float)
-        for ax, (par, dep) in zip(axes, dist.conditional_parameters.items()):
-            xy = np.asarray(ax.lines[0].get_xydata(), dtype=float)
-            n_eval += 1
-            if not (np.array_equal(xy[:, 0], np.linspace(0, max(cv))) and np.array_equal(xy[:, 1], np.asarray(dep(xy[:, 0]), dtype=float))):
-                out.append(({"function": "plot_dependence_functions", "clause": "curve", "model": name}, "fitted dependence function %r is not drawn as (x, f(x)) over [0, max conditioning value]" % par))
-            est = np.array([p[par] for p in dist.parameters_per_interval], dtype=float)
-            offs = [np.asarray(np.ma.filled(c.get_offsets(), np.nan), dtype=float) for c in ax.collections]
-            if len(offs) != 1 or not _same(offs[0], np.c_[cv, est]):
-                out.append(({"function": "plot_dependence_functions", "clause": "estimates"}, "per-interval estimates of %r are not drawn as (conditioning value, estimate)" % par))
-        plt.close("all")
+        n_eval += check_dependence_axes(vp, plt, name, model, swap_sem, out)
     # ---- histograms with pdf curves
     sample = np.asarray(data)
     for plot_pdf in (True, False):
@@ -686,19 +790,21 @@ def check_other_plots(ctx, virocon, vp, plt, rng):
     out = []
     from harness.c17 import random_model
     n_eval = 0
-    # ---- unfitted random models: dependence functions drawn over linspace(0, 10)
-    for k in range(ctx.n(3, 20)):
-        m = random_model(rng)
-        axes = vp.plot_dependence_functions(m)
-        dist = m.distributions[1]
-        for ax, (par, dep) in zip(axes, dist.conditional_parameters.items()):
-            xy = np.asarray(ax.lines[0].get_xydata(), dtype=float)
-            n_eval += 1
-            if not (np.array_equal(xy[:, 0], np.linspace(0, 10)) and np.array_equal(xy[:, 1], np.asarray(dep(xy[:, 0]), dtype=float))):
-                out.append(({"function": "plot_dependence_functions", "clause": "curve"}, "dependence function %r is not drawn as (x, f(x))" % par))
-            if len(ax.collections) != 0:
-                out.append(({"function": "plot_dependence_functions", "clause": "estimates"}, "estimates drawn for a model that was never fitted"))
-        plt.close("all")
+    # ---- dependence functions of random 2-D models and of 2- to 4-dimensional models whose conditional
+    #      dimensions have different numbers of conditional parameters, never fitted and fitted
+    for k in range(ctx.n(2, 10)):
+        n_eval += check_dependence_axes(vp, plt, "random 2-D model", random_model(rng), None, out)
+    nprng = ctx.np_rng(31)
+    for k in range(ctx.n(6, 40)):
+        n_dim = [3, 3, 4, 2][k % 4]
+        fitted = k % 2 == 1
+        try:
+            m, kinds = random_nd_model(rng, n_dim, fitted, nprng)
+        except Exception as e:  # noqa  (fitting a random structure may fail: not the subject here)
+            ctx.notes["nd_models_not_built"] = ctx.notes.get("nd_models_not_built", 0) + 1
+            continue
+        ctx.notes.setdefault("nd_models_plotted", []).append("%d-D %s %s" % (n_dim, "/".join(kinds), "fitted" if fitted else "unfitted"))
+        n_eval += check_dependence_axes(vp, plt, "hierarchical model %s" % "/".join(kinds), m, None, out, own_axes=rng.random() < 0.3)
     # ---- predefined models fitted to the shipped datasets (random contiguous parts of them)
     which = PREDEFINED if not ctx.quick() else [PREDEFINED[(ctx.seed + t) % 6] for t in (0, 2, 3)] + [rng.choice(PREDEFINED)]
     for name, model, data, sem in fitted_predefined_models(virocon, rng, list(dict.fromkeys(which))):
